@@ -174,6 +174,9 @@ func (c *Conn) Write(p []byte) (int, error) {
 		if l.reset {
 			return n, c.opErr("write", syscall.ECONNRESET)
 		}
+		if l.wclosed {
+			return n, c.opErr("write", syscall.EPIPE) // after CloseWrite
+		}
 		if l.rclosed {
 			// TCP: the first write after the peer went away is accepted by
 			// the kernel and provokes the RST; later ones fail.
@@ -221,6 +224,24 @@ func (c *Conn) Close() error {
 		return c.opErr("close", net.ErrClosed)
 	}
 	c.closeInternal(false)
+	return nil
+}
+
+// CloseWrite shuts down the sending direction only (TCP half-close): the
+// peer reads what was written and then EOF, while this endpoint can go on
+// reading.
+func (c *Conn) CloseWrite() error {
+	s := c.n.s
+	s.Yield(simrt.YConnClose)
+	if c.closed {
+		return c.opErr("close", net.ErrClosed)
+	}
+	if !c.wr.wclosed {
+		c.wr.wclosed = true
+		c.wr.wake(s, &c.wr.readers)
+		s.Event("conn-shutwr", int64(c.ID), 0)
+		s.Fault("half_close")
+	}
 	return nil
 }
 
